@@ -15,6 +15,38 @@ var (
 // for every other path. Aggregated discovery is never served: the plain
 // documents are returned with Content-Type application/json and client-go
 // falls back to them.
+// HideFromDiscovery makes discovery stop (hidden=true) or resume (false) listing a resource; requests
+// for the resource itself are served as before. A group-version whose resources are all hidden
+// disappears from the group lists too.
+func (s *Server) HideFromDiscovery(apiVersion, resource string, hidden bool) {
+	s.mu.Lock()
+	defer s.mu.Unlock()
+	if s.hiddenFromDiscovery == nil {
+		s.hiddenFromDiscovery = map[resKey]bool{}
+	}
+	if hidden {
+		s.hiddenFromDiscovery[resKey{apiVersion, resource}] = true
+	} else {
+		delete(s.hiddenFromDiscovery, resKey{apiVersion, resource})
+	}
+}
+
+// discoverable returns the resources discovery lists.
+func (s *Server) discoverable() []Resource {
+	s.mu.Lock()
+	defer s.mu.Unlock()
+	if len(s.hiddenFromDiscovery) == 0 {
+		return s.resources
+	}
+	var out []Resource
+	for _, r := range s.resources {
+		if !s.hiddenFromDiscovery[resKey{r.APIVersion(), r.Resource}] {
+			out = append(out, r)
+		}
+	}
+	return out
+}
+
 func (s *Server) serveDiscovery(req *http.Request) *http.Response {
 	parts := strings.Split(strings.Trim(req.URL.Path, "/"), "/")
 	isDiscovery := false
@@ -72,7 +104,7 @@ func (s *Server) serveDiscovery(req *http.Request) *http.Response {
 	}
 	gv := Resource{Group: group, Version: version}.APIVersion()
 	var rs []Resource
-	for _, r := range s.resources {
+	for _, r := range s.discoverable() {
 		if r.Group == group && r.Version == version {
 			rs = append(rs, r)
 		}
@@ -119,7 +151,7 @@ func (s *Server) serveDiscovery(req *http.Request) *http.Response {
 func (s *Server) groups() []string {
 	seen := map[string]bool{}
 	var out []string
-	for _, r := range s.resources {
+	for _, r := range s.discoverable() {
 		if !seen[r.Group] {
 			seen[r.Group] = true
 			out = append(out, r.Group)
@@ -133,7 +165,7 @@ func (s *Server) groups() []string {
 func (s *Server) groupVersions(group string) []string {
 	seen := map[string]bool{}
 	var out []string
-	for _, r := range s.resources {
+	for _, r := range s.discoverable() {
 		if r.Group == group && !seen[r.Version] {
 			seen[r.Version] = true
 			out = append(out, r.Version)
